@@ -979,6 +979,13 @@ func init() {
 						sc.Lines[i].Extra = append(sc.Lines[i].Extra, "resultfolder=RES")
 					}
 				}
+				if sc.Params["mode"] == "realbin" && r.Bool(0.3) {
+					// stratum (real disk only): the session is killed while runs are writing and started again over what it left
+					sc.Params["rbkill"] = "1"
+				} else if sc.Params["mode"] == "realbin" && r.Bool(0.45) {
+					// stratum (real disk only): one result file of one line sits on a full device
+					sc.Params["devfull"] = "1"
+				}
 				if sc.Params["mode"] == "realbin" && sc.Params["twins"] == "" && len(sc.Lines) >= 2 && r.Bool(0.4) {
 					// stratum (real disk only): the output id of one line is the tail of another line's output id
 					// (polygon ids "L03" and "AL03" on the same plot): nothing that goes by file-name patterns may mix them up
@@ -1099,10 +1106,73 @@ func execRealBinary(sc *Scenario, env *Env, root string, refs []*lineRef, order 
 		if sc.Params["log"] != "0" {
 			argv = append(argv, "-logoutput")
 		}
+		if sc.Params["rbkill"] != "" {
+			// first invocation: killed (SIGKILL) shortly after its first run has started; whatever it left stays on the disk
+			av := append([]string{}, argv...)
+			if sc.Params["log"] == "0" {
+				av = append(av, "-logoutput")
+			}
+			first := exec.Command(bin, av...)
+			first.Dir = startDir
+			delay := time.Duration(r.Intn(40)) * time.Millisecond
+			runChild(first, 5*time.Minute, func(c *exec.Cmd) bool { time.Sleep(delay); c.Process.Kill(); return true })
+			res.add("fault.session-killed-and-started-again-on-the-real-disk", 1)
+		}
+		fullLine, fullFile := -1, ""
+		if sc.Params["devfull"] != "" {
+			var cands []int
+			for i := range sc.Lines {
+				if refs[i].success {
+					cands = append(cands, i)
+				}
+			}
+			if len(cands) > 0 {
+				fullLine = cands[r.Intn(len(cands))]
+				var names []string
+				for n, d := range refs[fullLine].files {
+					if (n[0] == 'Y' || n[0] == 'C') && len(d) > 0 && !strings.HasSuffix(n, ".yml") {
+						names = append(names, n)
+					}
+				}
+				sort.Strings(names)
+				if len(names) > 0 {
+					fullFile = names[r.Intn(len(names))]
+					p := filepath.Join(resDir(fullLine), fullFile)
+					os.MkdirAll(filepath.Dir(p), 0o755)
+					os.Remove(p)
+					os.Symlink("/dev/full", p)
+					res.add("fault.result-file-on-a-full-device", 1)
+				} else {
+					fullLine = -1
+				}
+			}
+		}
 		cmd := exec.Command(bin, argv...)
 		cmd.Dir = startDir
 		outS, err := runChild(cmd, 5*time.Minute, nil)
 		outB := []byte(outS)
+		if fullLine >= 0 {
+			os.Remove(filepath.Join(resDir(fullLine), fullFile))
+			// the program may give up loudly (the shipped code ends the process when the final flush fails) or fail that
+			// line; it must not report the line as a success
+			if err != nil {
+				res.add("reach.full-device-ended-the-session", 1)
+				return &BatchOutcome{Disk: NewSimDisk(), Stdout: ""}, "\x00gave-up"
+			}
+			rep := parseDispatcher(string(outB))
+			listed := false
+			for pos, li := range order {
+				if li != fullLine {
+					continue
+				}
+				for _, el := range rep.ErrorLines {
+					listed = listed || strings.HasPrefix(el, fmt.Sprintf("[%d] ", pos)) || el == fmt.Sprintf("[%d]", pos)
+				}
+			}
+			if !listed {
+				return &BatchOutcome{Disk: NewSimDisk(), Stdout: string(outB)}, "\x00swallowed:" + fullFile
+			}
+		}
 		disk := NewSimDisk()
 		dirs := map[string]bool{}
 		for i := range sc.Lines {
@@ -1138,6 +1208,12 @@ func execRealBinary(sc *Scenario, env *Env, root string, refs []*lineRef, order 
 	}
 	judge := func() []batchViol {
 		out, msg := once()
+		if msg == "\x00gave-up" {
+			return nil
+		}
+		if strings.HasPrefix(msg, "\x00swallowed:") {
+			return []batchViol{{"real-binary", "write-error-swallowed", fmt.Sprintf("result file %s of one line sat on a full device (every write to it fails at the latest when it is flushed); the session ended with status 0 and does not list the line as failed", msg[len("\x00swallowed:"):]), ""}}
+		}
 		if msg != "" {
 			return []batchViol{{"real-binary", "simulator-binary-failed", msg, ""}}
 		}
